@@ -203,6 +203,85 @@ func (j *judge) network() {
 			j.compareNet(dst, tag)
 		}
 	}
+	if !cs.leanNet && cs.Secs == 1 && cs.Extra == "" {
+		j.usedSame(data, len(wire))
+	}
+}
+
+// usedSame reads the chunk into a destination that previously held a chunk of the SAME shape
+// (same palette sizes, hence the same representations and widths) with other values, compares,
+// then sets a block to one of the destination's OLD states (absent from the chunk just read) and
+// compares again: per-palette state surviving a same-width reload shows only then.
+func (j *judge) usedSame(data []byte, wireLen int) {
+	cs, m := j.cs, j.b.m
+	prev := level.EmptyChunk(cs.Secs)
+	const shift = 97
+	remap := func(v int) int { return (v + shift) % nStates }
+	var pbuf bytes.Buffer
+	var perr error
+	if _, _, p := engine.Guard(func() {
+		for s, ms := range m.secs {
+			for i, v := range ms.blocks {
+				prev.Sections[s].SetBlock(i, level.BlocksState(remap(v)))
+			}
+		}
+		_, perr = prev.WriteTo(&pbuf)
+	}); p || perr != nil {
+		rep.Count("diagnostic/used-same-target-unavailable", 1)
+		return
+	}
+	dst := level.EmptyChunk(cs.Secs)
+	if _, _, p := engine.Guard(func() { _, perr = dst.ReadFrom(bytes.NewReader(pbuf.Bytes())) }); p || perr != nil {
+		rep.Count("diagnostic/used-same-target-unavailable", 1)
+		return
+	}
+	var rerr error
+	kind, frame, p := engine.Guard(func() { _, rerr = dst.ReadFrom(bytes.NewReader(data)) })
+	atomic.AddInt64(&convExec, 1)
+	rep.Eval(1)
+	tag := "target=used-same-shape"
+	if p {
+		j.fail("net/read/panic/"+kind+"@"+frame+"/"+tag, "Chunk.ReadFrom into a destination that held a chunk of the same shape panicked: "+kind)
+		return
+	}
+	if rerr != nil {
+		j.fail("net/read/error/"+tag, "Chunk.ReadFrom into a destination that held a chunk of the same shape failed: "+rerr.Error())
+		return
+	}
+	j.compareNet(dst, tag)
+	// an old state of the destination that the chunk just read does not contain
+	ms := m.secs[0]
+	present := map[int]bool{}
+	for _, v := range ms.blocks {
+		present[v] = true
+	}
+	old := -1
+	for _, v := range ms.blocks {
+		if o := remap(v); !present[o] {
+			old = o
+			break
+		}
+	}
+	if old < 0 {
+		return
+	}
+	const pos = 5
+	saved, savedCount, savedBC := ms.blocks[pos], ms.count, j.b.srcBC[0]
+	if _, _, p := engine.Guard(func() { dst.Sections[0].SetBlock(pos, level.BlocksState(old)) }); p {
+		j.fail("net/set-after-read/panic/"+tag, "SetBlock of a state the destination held before the read panicked")
+		return
+	}
+	delta := 0
+	if !airByName[saved] {
+		delta--
+	}
+	if !airByName[old] {
+		delta++
+	}
+	ms.blocks[pos], ms.count = old, ms.count+delta
+	j.b.srcBC[0] = savedBC + int16(delta)
+	j.compareNet(dst, tag+",after-SetBlock-of-an-old-state")
+	ms.blocks[pos], ms.count, j.b.srcBC[0] = saved, savedCount, savedBC
 }
 
 func layoutString(l wireLayout) string {
